@@ -296,6 +296,22 @@ theorem M_star_render {a s} {X : Type} (P : X → Prop) (rend : X → Str)
     obtain ⟨x, hx, rfl⟩ := hp
     exact (h _).mpr ⟨x, hxs x hx, rfl⟩
 
+theorem flatten_singletons (xs : List Nat) : (xs.map fun cp => [cp]).flatten = xs := by
+  induction xs with
+  | nil => rfl
+  | cons x xs ih => simp [ih]
+
+/-- `K*` for an arbitrary kind set -/
+theorem M_star_Kany {ks s} :
+    ctx.M (R.star (K ctx.kinds ks)) s ↔ ∀ cp ∈ s, cp < 0x110000 ∧ ks.contains (kindCI cp) = true := by
+  rw [ctx.M_star_render (fun cp => cp < 0x110000 ∧ ks.contains (kindCI cp) = true) (fun cp => [cp]) (fun q => by
+    rw [ctx.M_K]; constructor
+    · rintro ⟨cp, rfl, h⟩; exact ⟨cp, h, rfl⟩
+    · rintro ⟨cp, h, rfl⟩; exact ⟨cp, rfl, h⟩)]
+  constructor
+  · rintro ⟨xs, hxs, rfl⟩; rw [flatten_singletons]; exact hxs
+  · intro h; exact ⟨s, h, flatten_singletons s⟩
+
 /-- `K*` for an ASCII kind set: every character satisfies the predicate -/
 theorem M_star_K {ks s} {p : Nat → Bool} (kp : KP ks p) :
     ctx.M (R.star (K ctx.kinds ks)) s ↔ ∀ cp ∈ s, p cp = true := by
@@ -303,13 +319,9 @@ theorem M_star_K {ks s} {p : Nat → Bool} (kp : KP ks p) :
     rw [ctx.M_K' kp]; constructor
     · rintro ⟨cp, rfl, h⟩; exact ⟨cp, h, rfl⟩
     · rintro ⟨cp, h, rfl⟩; exact ⟨cp, rfl, h⟩)]
-  have hfl : ∀ xs : List Nat, (xs.map fun cp => [cp]).flatten = xs := by
-    intro xs; induction xs with
-    | nil => rfl
-    | cons x xs ih => simp [ih]
   constructor
-  · rintro ⟨xs, hxs, rfl⟩; rw [hfl]; exact hxs
-  · intro h; exact ⟨s, h, hfl s⟩
+  · rintro ⟨xs, hxs, rfl⟩; rw [flatten_singletons]; exact hxs
+  · intro h; exact ⟨s, h, flatten_singletons s⟩
 
 theorem M_plus_K {ks s} {p : Nat → Bool} (kp : KP ks p) :
     ctx.M (Rx.plus (K ctx.kinds ks)) s ↔ s ≠ [] ∧ ∀ cp ∈ s, p cp = true := by
@@ -352,6 +364,10 @@ theorem kp_plus : KP [Kinds.plus] (· == 43) := kp_char _ _ (by decide) (by deci
 theorem kp_dash : KP [dash] (· == 45) := kp_char _ _ (by decide) (by decide) (by decide +kernel)
 theorem kp_dot : KP [dot] (· == 46) := kp_char _ _ (by decide) (by decide) (by decide +kernel)
 theorem kp_star : KP [Kinds.star] (· == 42) := kp_char _ _ (by decide) (by decide) (by decide +kernel)
+theorem kp_eq : KP [Kinds.eq] (· == 61) := kp_char _ _ (by decide) (by decide) (by decide +kernel)
+theorem kp_lt : KP [Kinds.lt] (· == 60) := kp_char _ _ (by decide) (by decide) (by decide +kernel)
+theorem kp_gt : KP [Kinds.gt] (· == 62) := kp_char _ _ (by decide) (by decide) (by decide +kernel)
+theorem kp_tilde : KP [Kinds.tilde] (· == 126) := kp_char _ _ (by decide) (by decide) (by decide +kernel)
 
 theorem letter_table : ∀ k, k < 123 → 97 ≤ k → ∀ cp, cp < 128 →
     [2 + (k - 97)].contains (kindCI cp) = (lowerAscii cp == k) := by decide +kernel
@@ -388,6 +404,22 @@ theorem M_word_list (l : List Char) (hl : ∀ c ∈ l, 97 ≤ c.toNat ∧ c.toNa
       | cons cp t =>
         simp only [lowerStr, List.map_cons, List.cons.injEq] at h
         exact ⟨[cp], t, rfl, ⟨cp, rfl, by simp [h.1]⟩, by simpa [lowerStr] using h.2⟩
+
+/-- a sequence of single-character kinds matches exactly that character sequence -/
+theorem M_chars (l : List (Nat × Nat)) (hl : ∀ p ∈ l, KP [p.1] (· == p.2)) : ∀ s,
+    ctx.M (seq (l.map fun p => K ctx.kinds [p.1])) s ↔ s = l.map (·.2) := by
+  induction l with
+  | nil => intro s; simp [seq, M_eps]
+  | cons p ps ih =>
+    intro s
+    have ih := ih (fun x hx => hl x (by simp [hx]))
+    simp only [List.map_cons, M_seq_cons, M_cat, ctx.M_K' (hl p (by simp)), ih]
+    constructor
+    · rintro ⟨u, v, rfl, ⟨cp, rfl, h⟩, rfl⟩
+      simp only [beq_iff_eq] at h
+      simp [h]
+    · rintro rfl
+      exact ⟨[p.2], _, rfl, ⟨p.2, rfl, by simp⟩, rfl⟩
 
 /-- a lower-case word matches exactly its spellings in any letter case -/
 theorem M_word (str : String) (h : ∀ c ∈ str.toList, 97 ≤ c.toNat ∧ c.toNat ≤ 122) (s : Str) :
